@@ -121,8 +121,9 @@ CLAIMED["C19"] = row("§5 C19 / §15",
     "explicit-state exploration of call histories on live objects with differential and frame oracles")
 CLAIMED["C20"] = row("§5 C20 / §15",
     "Complete product: 5 repertoire mixes x 2 kerning kinds x 3 anchor kinds x all 32 subsets of a 5-statement "
-    "languagesystem menu x 3 user-feature shapes (x TTF/OTF in thorough), ordered statement scenarios, reused "
-    "writers and two-master variable fonts with variable features; every script and language system of the "
+    "languagesystem menu x 3 user-feature shapes x TTF/OTF, ordered statement scenarios, reused "
+    "writers, writer configurations (UFO lib key with append mode / another order / other options, the legacy kern "
+    "writer, the featureWriters argument in another order) and two-master variable fonts with variable features; every script and language system of the "
     "compiled GPOS is checked for reachability of every generated attaching feature that has a complete pair "
     "usable in that script.",
     "Trusted: fontTools GPOS reader, fontTools.unicodedata.",
